@@ -22,7 +22,7 @@ ASSUMPTIONS = [
     'change is judged by the three-valued eqspec (EQUAL/DIFFERENT on numbers, strings, None, dates and containers of these; '
     'UNSPEC for everything else)',
 ]
-REQUIRED = {'deliveries': 20000, 'direct': 10000, 'nested_ops': 1000, 'slot_deliveries': 100, 'queued_cb_runs': 500}
+REQUIRED = {'deliveries': 15000, 'direct': 8000, 'nested_ops': 1000, 'slot_deliveries': 100, 'queued_cb_runs': 500}
 FEATS = {'cascade', 'queued', 'unwatch', 'rewatch', 'update', 'trigger', 'slots', 'cb_unwatch', 'twins'}
 
 _st = {}
